@@ -290,7 +290,8 @@ MatchByte(m, b) ==
        IN IF H1 = {} THEN
              IF fresh /\ m.expC = <<>> /\ m.expE = <<>> THEN
                   [m EXCEPT !.lost = TRUE, !.stray = <<b>>,
-                            !.sctx = IF m.pend /\ m.cph \in {"run", "rloop", "tloop", "wloop"} THEN (IF m.ccalled THEN "C10" ELSE C02Tag(m)) ELSE ""]
+                            !.sctx = IF m.pend /\ m.cph \in {"run", "rloop", "tloop", "wloop"} THEN (IF m.ccalled THEN "C10" ELSE C02Tag(m))
+                                     ELSE IF m.eph \in {"rloop", "tloop"} THEN "E" ELSE ""]
              ELSE IF fresh THEN
                   IF m.expC # <<>> /\ m.expE = <<>> /\ b \in {CR, LF} THEN AddBad(m, "C20", "newline style of a command response")
                   ELSE AddBad(m, IF m.expC # <<>> /\ m.expE # <<>> THEN "C11" ELSE IF m.expC # <<>> THEN Head(m.expC).tag ELSE Head(m.expE).tag,
@@ -321,9 +322,11 @@ StrayVerdict(m) ==
   ELSE LET s == m.stray
            isCode == \E nl \in {<<LF>>, <<CR, LF>>} : \E t \in {T_OK, T_ERROR} : Len(s) >= Len(nl \o t) /\ SubSeq(s, 1, Len(nl \o t)) = nl \o t
            evctx == m.eclosing # {} \/ m.eph # "idle"      \* an event was processed since the last quiescent point: C10 says events emit no result code
-       IN [AddBad(m, IF isCode /\ m.sctx # "" THEN m.sctx
+       IN [AddBad(m, IF isCode /\ m.sctx \notin {"", "E"} THEN m.sctx
+                     ELSE IF ~isCode /\ m.sctx = "E" THEN "C10,C13"       \* the event's handler was due; output appeared instead
                      ELSE IF m.cph = "held" /\ isCode THEN "C14,C01" ELSE IF isCode /\ evctx THEN "C01,C10" ELSE IF isCode THEN "C01" ELSE "C11",
-                  IF isCode /\ m.sctx # "" THEN <<"the line was answered although the handler it calls for had not run / had asked to be called again", s>>
+                  IF isCode /\ m.sctx \notin {"", "E"} THEN <<"the line was answered although the handler it calls for had not run / had asked to be called again", s>>
+                  ELSE IF ~isCode /\ m.sctx = "E" THEN <<"output although the handler of the event in progress had not run", s>>
                   ELSE <<"output that nothing owes", s>>) EXCEPT !.stray = <<>>, !.sctx = ""]
 
 (***************************************************************************)
@@ -382,7 +385,7 @@ OnCmdC(m, e) ==
   ELSE LET argsOk == CASE want = "run" -> TRUE
                        [] want = "write" -> e.data = m.ctxt /\ e.size = Len(m.ctxt) /\ e.nul /\ e.aux = m.cnp
                        [] OTHER -> e.data = m.ctxt /\ e.size = Len(m.ctxt) /\ e.aux = m.cfg.acap
-       IN IF ~argsOk THEN AddBad(m, IF want \in {"read", "test"} /\ e.data = m.cprev THEN "C10"
+       IN IF ~argsOk THEN AddBad(m, IF want \in {"read", "test"} /\ e.data = m.cprev THEN "C06,C10"
                                     ELSE IF want = "read" /\ e.size = Len(e.data) /\ e.aux = m.cfg.acap THEN (IF e.data = m.cunm THEN "C08" ELSE "C07")
                                     ELSE IF want = "test" /\ e.size = Len(e.data) /\ e.aux = m.cfg.acap THEN "C19" ELSE "C06",
                                  <<"handler arguments", e.kind, e.data, e.size, e.aux, "expected", m.ctxt, m.cnp>>)
@@ -415,7 +418,7 @@ OnCmdE(m, e) ==
   ELSE LET want == IF m.eph = "rloop" THEN "read" ELSE "test" IN
   IF e.c # m.ec \/ e.kind # want THEN AddBad(m, "C13", <<"event handler out of order", e.kind, e.c, "expected", want, m.ec>>)
   ELSE IF ~(e.data \in m.etxt /\ e.size = Len(e.data) /\ e.aux = m.cfg.ucap) THEN
-       AddBad(m, IF e.data = m.eprev THEN "C10"
+       AddBad(m, IF e.data = m.eprev THEN "C06,C10"
                  ELSE IF e.size = Len(e.data) /\ e.aux = m.cfg.ucap THEN (IF want = "read" THEN (IF e.data = m.eunm THEN "C08" ELSE "C07") ELSE "C19") ELSE "C06",
               <<"event handler arguments", e.data, e.size, e.aux, "expected", m.etxt>>)
   ELSE LET m0 == [m EXCEPT !.emaybe = 0, !.eprev = IF e.ret \in {RET_NEXT, RET_DATA_NEXT} /\ e.data2 # e.data THEN e.data2 ELSE <<-1>>]
